@@ -105,7 +105,11 @@ impl Emitter {
     // Emit a sequence of code points, lowering to literal bytes (UTF-8).
     #[cfg(not(feature = "utf16"))]
     fn emit_code_point_sequence(&mut self, cps: &[u32], icase: bool) {
-        let pieces = lower_code_point_sequence(cps, icase, self.result.flags.unicode);
+        let mut pieces = lower_code_point_sequence(cps, icase, self.result.flags.unicode);
+        // Inside a lookbehind the input is consumed right to left.
+        if self.in_lookbehind {
+            pieces.reverse();
+        }
         for piece in pieces {
             self.emit_node(&Node::from(piece));
         }
@@ -115,7 +119,12 @@ impl Emitter {
     #[cfg(feature = "utf16")]
     fn emit_code_point_sequence(&mut self, cps: &[u32], icase: bool) {
         let unicode = self.result.flags.unicode;
-        for &cp in cps {
+        // Inside a lookbehind the input is consumed right to left.
+        let mut cps = cps.to_vec();
+        if self.in_lookbehind {
+            cps.reverse();
+        }
+        for cp in cps {
             let chars = unicode::expand_code_point(cp, icase, unicode);
             let node = match chars.len() {
                 0 => panic!("Char should always unfold to at least itself"),
